@@ -19,6 +19,10 @@ package main
 //   [i2] use W                         UseWallet                        ok | unready | err
 //   [i2] import W mn|ks N              import W's mnemonic / exported keystore (ExternalIndex N)
 //                                      ok <status> <addresses> | err-<class>
+//   [i2] importq W mn|ks N             the same import, answering only   ok | err-<class>   (neither the status nor
+//                                      the address list: a wrong address set / hand-over then shows where the
+//                                      SPECIFICATION speaks - use, bal, utxos, twin - and not as a mere
+//                                      implementation/model difference that ends the history at the import)
 //   [i2] tasks                         drain the worker queue           import:W,remove:W | -
 //   [i2] inittasks                     start-up re-queueing (initTaskChan)
 //   [i2] impstep W                     one asyncImport batch            fin | more | idle | err-<class>
@@ -238,6 +242,12 @@ func (x *irExec) op(in *irInst, a []string) string {
 			return "bad-op"
 		}
 		return x.doImport(in, a[1], a[2], uint32(n))
+	case a[0] == "importq" && len(a) == 4:
+		n, err := strconv.ParseUint(a[3], 10, 32)
+		if err != nil {
+			return "bad-op"
+		}
+		return strings.SplitN(x.doImport(in, a[1], a[2], uint32(n)), " ", 2)[0]
 	case a[0] == "tasks" && len(a) == 1:
 		return drainTasks(e)
 	case a[0] == "inittasks" && len(a) == 1:
